@@ -608,8 +608,9 @@ def fam_small_rules(ctx):
                 elif len(nd.input) > 1 and nd.input[1] in consts and np.asarray(consts[nd.input[1]]).ndim == 1:
                     obs = ("inr", [int(v) for v in np.asarray(consts[nd.input[1]]).tolist()])
         has_seq = any(nd.op_type == "SplitToSequence" for nd in new.graph.node)
-        if obs is None and not has_seq:
-            # everything folded away (e.g. d = 0): compare through the oracle only
+        if (obs is None and not has_seq) or d == 0:
+            # everything folded away (d = 0 as read), or the evaluator gives up on an empty axis (repaired variant):
+            # compared, variant-aware, with the acceptance oracle in c09_accept.fam_seq_accept
             continue
         c_obs = "None" if obs is None else (f"(Some (inl {cz(obs[1])}))" if obs[0] == "inl" else f"(Some (inr {U.czs(obs[1])}))")
         lits.append(f"({U.cdim(d)}, {cz(s)}, {c_obs})")
